@@ -17,7 +17,8 @@ Record query := mk_query {
 
 Inductive case :=
 | CTags (markers : bytes) (lines : list bytes) (tags : tagmap) (others : list bytes)
-| CLayout (evs : list event) (leads : list group) (qs : list query).
+| CLayout (evs : list event) (leads : list group) (cont : bool) (qs : list query).
+(* cont: the harness' copy of the classifier name_on_continuation_line *)
 
 Definition lines_eqb := list_eqb bytes_eqb.
 
@@ -43,8 +44,9 @@ Definition query_mismatch (ix : index) (q : query) : bool :=
 Definition mismatch (c : case) : bool :=
   match c with
   | CTags ms ls tags others => tags_mismatch ms ls tags others
-  | CLayout evs leads qs =>
+  | CLayout evs leads cont qs =>
       negb (wf_b evs leads)                          (* the assumed go/parser + ast.Inspect facts *)
+      || negb (Bool.eqb cont (name_on_continuation_line evs))   (* both copies of the classifier agree *)
       || (let ix := build true evs in existsb (query_mismatch ix) qs)
   end.
 
@@ -72,7 +74,7 @@ Definition query_holds (q : query) : bool :=
 Definition holds (c : case) : bool :=
   match c with
   | CTags ms ls tags others => tags_hold ms ls tags others
-  | CLayout _ _ qs => forallb query_holds qs
+  | CLayout _ _ _ qs => forallb query_holds qs
   end.
 
 Definition mismatches (cs : list case) : list nat := bad_indices mismatch cs.
